@@ -1,0 +1,19 @@
+//go:build verif
+
+// Contracts for the gocv verifier (comment-only file; see /verif/DESIGN.md §4).
+package zone_file
+
+//@ spec func zReplyTo(q *dns.Msg, r *dns.Msg) bool = r != nil && r != q && r.Id == q.Id && r.Response && (len(q.Question) > 0 ==> len(r.Question) == 1 && r.Question[0] == q.Question[0])
+
+//@ func (m *Matcher) Search
+//@   nobody
+//@   log zoneSearch
+
+// Reply (C03): a reply is produced only if some question has records; it is built from the query
+// with SetReply (ID and first question of the query).
+//@ func (m *Matcher) Reply [C03]
+//@   log zoneReply
+//@   requires m != nil && q != nil
+//@   ensures result != nil ==> fresh(result) && zReplyTo(q, result) && len(result.Extra) == 0 && len(q.Question) > 0
+//@   loop 0:
+//@     invariant 0 <= it0 && (r != nil ==> fresh(r) && zReplyTo(q, r) && len(r.Extra) == 0 && len(q.Question) > 0)
